@@ -479,3 +479,7 @@ func init() {
 	mutant("client-handshake-marker-without-encoder", "settings-applied", "conn.go", "				c.enc.SetMaxTableSize(st.HeaderTableSize())\n				c.encTableSize = st.HeaderTableSize()\n				c.encTableSizeSeen = st.HeaderTableSize()", "				c.encTableSize = st.HeaderTableSize()\n				c.encTableSizeSeen = st.HeaderTableSize()")
 	mutant("cutpadding-pad-equals-length", "padding-shape", "http2utils/utils.go", "	if len(payload) < length-pad-1 || length-pad < 1 {", "	if len(payload) < length-pad-1 || pad > length {")
 }
+
+func init() {
+	mutant("priority-on-idle-creates-stream", "table-insert-counted", "serverConn.go", "					if fr.Body().(*Priority).Stream() == fr.Stream() {\n						sc.writeGoAway(fr.Stream(), ProtocolError, \"stream that depends on itself\")\n						break loop\n					}\n\n					continue\n				}\n", "					if fr.Body().(*Priority).Stream() == fr.Stream() {\n						sc.writeGoAway(fr.Stream(), ProtocolError, \"stream that depends on itself\")\n						break loop\n					}\n				}\n")
+}
